@@ -74,7 +74,10 @@ KINDS = ["unknown-mnemonic", "undefined-symbol", "undefined-symbol-dw", "out-of-
          "stray-endm", "unterminated-macro", "unterminated-comment", "unterminated-repeat",
          "define-self", "define-mutual", "define-chain-129", "define-chain-stmt", "macro-recursive",
          "div-zero", "div-zero-after-add", "div-zero-before-add", "mod-zero-after-mul", "div-zero-in-parens", "div-zero-via-equ",
-         "db-trailing-comma", "db-empty", "define-empty", "operand-drop", "operand-extra", "punct-swap", "truncate"]
+         "db-trailing-comma", "db-empty", "define-empty", "operand-drop", "operand-extra", "punct-swap", "truncate", "number-extreme"]
+LINE_KINDS = ("operand-drop", "operand-extra", "punct-swap", "truncate", "number-extreme")
+NUM_LIT = re.compile(r"(?<![\w.$])(0x[0-9a-fA-F]+|\d+)\b")
+EXTREMES = [-1, -129, -32769, 5, 7, 0x81, 255, 256, 0x1001, 65535, 65536, 0x12345, 0x100000, 0x4000000, 0x7fffffff, 0xffffffff, -0x80000000, 3, 9, 0x3f, 0x40]
 PLACES = ["top", "in-macro", "in-include", "in-repeat", "in-if", "in-nested-if", "in-else", "in-ifdef", "in-deep-if"]
 STRUCT_PLACES = ["top", "in-include", "at-end"]
 
@@ -112,7 +115,7 @@ class C12(Engine):
     prop = "C12"
     title = "failure is atomic"
     quick_budget = 45
-    quick_runs = 14000
+    quick_runs = 17000
     thorough_budget = 900
     rule = ("run i = history of 3-8 operations on one persistent SimFs workspace (set valid source from the 45-CPU corpus with "
             "labels/.db/macros/.if/.include; single-point corruption of %d kinds x %d placements; plant stale output; assemble with "
@@ -127,8 +130,16 @@ class C12(Engine):
                    "abnormal termination (signal/sanitizer) inside a C12 history is C16's finding and is only counted here",
                    "after an injected fopen(out) failure the program is not required to remove what it could not open"]
 
+    NUM_SWEEP = None
+
+    @classmethod
+    def num_sweep(cls):
+        if cls.NUM_SWEEP is None:
+            cls.NUM_SWEEP = [(cpu, l[0]) for cpu in sorted(progs.corpus()) for l in progs.corpus()[cpu] if NUM_LIT.search(l[0]) and ":" not in l[0]]
+        return cls.NUM_SWEEP
+
     def directed(self):
-        return len(DIRECTED)
+        return len(DIRECTED) + len(self.num_sweep())
 
     # ------------------------------------------------------------------ planning
     def plan(self, rng, index):
@@ -137,6 +148,16 @@ class C12(Engine):
         w = "%x" % rng.below(1 << 20)
         typ = rng.pick(TYPES)
         out = rng.pick(["out." + EXT[typ], "out.hex", "prog.out", "sub/o." + EXT[typ]])
+        if len(DIRECTED) <= index < self.directed():
+            # every corpus instruction that carries a literal, with three boundary / extreme values in turn
+            cpu, line = self.num_sweep()[index - len(DIRECTED)]
+            prog = {"cpu": cpu, "stmts": [[".%s" % cpu], [".org 0x%x" % rng.pick([0, 0x100, 0x1000])], ["  " + line], [".db 7"]], "files": {}}
+            ops = [{"op": "asm", "type": typ, "flags": [], "out": out, "faults": []}]
+            for _ in range(3):
+                ops.append({"op": "corrupt", "kind": "number-extreme", "place": "top", "pos": 1, "w": w, "k": rng.below(100000)})
+                ops.append({"op": "asm", "type": typ, "flags": rng.subset(["-l", "-q"], 1, 3), "out": out, "faults": []})
+                ops.append({"op": "restore"})
+            return {"prog": prog, "ops": ops}
         if index < len(DIRECTED):
             kind, place = DIRECTED[index]
             pos = rng.range(1, len(prog["stmts"]))
@@ -162,7 +183,7 @@ class C12(Engine):
                     corrupted = False
                 else:
                     kind = rng.pick(KINDS)
-                    struct = kind not in ("operand-drop", "operand-extra", "punct-swap", "truncate") and corruption_lines(kind, "x")[2]
+                    struct = kind not in LINE_KINDS and corruption_lines(kind, "x")[2]
                     place = rng.pick(STRUCT_PLACES if struct else PLACES)
                     ops.append({"op": "corrupt", "kind": kind, "place": place, "pos": rng.range(1, len(prog["stmts"])),
                                 "w": w, "k": rng.below(100000)})
@@ -208,8 +229,10 @@ class C12(Engine):
             k = op.get("k", 0) % (len(text) + 1)
             p["raw"] = text[:k]
             return p, {"erroneous": False, "kind": kind, "place": "top"}
-        if kind in ("operand-drop", "operand-extra", "punct-swap"):
+        if kind in ("operand-drop", "operand-extra", "punct-swap", "number-extreme"):
             idx = [i for i, s in enumerate(p["stmts"]) if len(s) == 1 and s[0][:1] in (" ", "\t") and s[0].strip() and i > 0]
+            if kind == "number-extreme":
+                idx = [i for i in idx if NUM_LIT.search(p["stmts"][i][0])]
             if kind == "punct-swap":
                 idx = [i for i in idx if re.search(r"[()\[\],#@+]", p["stmts"][i][0])]
             if not idx:
@@ -224,6 +247,13 @@ class C12(Engine):
                 at = spots[op.get("k", 0) % len(spots)]
                 repl = "()[],#@+-"[(op.get("k", 0) // 7) % 9]
                 line = line[:at] + repl + line[at + 1:]
+            elif kind == "number-extreme":
+                # one numeric literal of an instruction replaced by a boundary or extreme value: consistency checks only
+                # (the result may be encodable); an operand the assembler calls out of range must fail the assembly
+                spots = list(NUM_LIT.finditer(line))
+                m = spots[op.get("k", 0) % len(spots)]
+                v = EXTREMES[(op.get("k", 0) // 5) % len(EXTREMES)]
+                line = line[:m.start()] + ("%d" % v if v < 0 or (op.get("k", 0) & 1) else "0x%x" % v) + line[m.end():]
             else:
                 line = line + ", 1, 2"
             p["stmts"][i] = [line]
